@@ -2,13 +2,21 @@
 # Builds: cd /verif/lean && lake build BV.Props.C01MetaBlockFull bvdrive ; cd /verif/harness && cargo build --release --offline
 PROPS["C01"]["lean_modules"] = PROPS["C01"]["lean_modules"] + ["BV.Props.C01MetaBlockFull"]
 PROPS["C01"]["level_text"] += (
-    " THIRD MODULE (BV.Props.C01MetaBlockFull, in progress): the general writer BrotliStoreMetaBlock (quality >= 4) is inside the model"
+    " THIRD MODULE (BV.Props.C01MetaBlockFull): the general writer BrotliStoreMetaBlock (quality >= 4) is inside the model"
     " (BV/Model/MetaBlockFull.lean: block-split codes and block switches, StoreTrivialContextMap, EncodeContextMap with MoveToFrontTransform and RunLengthCodeZeros,"
     " BlockEncoder entropy codes, literal contexts with the two lookup tables generated from constants.rs, distance contexts; the MetaBlockSplit is INPUT)"
     " together with the GENERAL RFC 7932 reader (NBLTYPES >= 1 with type/count codes and the second-to-last / last+1 rule, context modes, context maps with RLEMAX and inverse move-to-front, NTREES codes, block switches in the command loop)."
-    " Proved so far: context_map_roundtrip - for every context map of 1..2^24 entries < num_clusters <= 256, behind any prefix and before any suffix, EncodeContextMap does not panic and the section 7.3 reader returns exactly (num_clusters, map)"
-    " (mtf_inverse_roundtrip: MoveToFrontTransform is undone by the inverse transform; rle_zero_runs_roundtrip: RunLengthCodeZeros is undone by the reader's run expansion for every run length and every max_run_length_prefix 0..6; the symbol code through C17)."
-    " Not yet proved (exercised only): block_switch_roundtrip, full_metablock_roundtrip, wmbi_full_roundtrip."
+    " PROVED: full_metablock_roundtrip - for every ring/mask/start, history, context mode 0-3, NPOSTFIX <= 3 / NDIRECT with a distance alphabet <= 544, every command array satisfying cmdOK, lockstep, faithful and copy_len() >= 2 for copies,"
+    " and every well-formed MetaBlockSplit (MBOK) whose histograms cover the symbols emitted under them (Covers), store_meta_block does not panic and the general reader consumes exactly the emitted bits (incl. final padding) and outputs what C14's replayCommands outputs (= hist ++ mb);"
+    " wmbi_full_roundtrip - the same through WriteMetaBlockInternal's size decision (C08) for every should_compress verdict / appendable / catable / last;"
+    " context_map_roundtrip - for every context map of 1..2^24 entries < num_clusters <= 256, behind any prefix and before any suffix, EncodeContextMap does not panic and the section 7.3 reader returns exactly (num_clusters, map)"
+    " (mtf_inverse_roundtrip, rle_zero_runs_roundtrip for every run length and every max_run_length_prefix 0..6; the symbol code through C17);"
+    " block_switch_roundtrip - for every well-formed split (SplitOK: first type 0, types < num_types <= 256, lengths 1..2^24, <= 2^24 blocks, one type => one block), behind any prefix and before any suffix,"
+    " BuildAndStoreBlockSplitCode followed by one StoreBlockSwitch per later block does not panic and the section 6 / 9.2 reader reconstructs exactly the (type, length) sequence (count code + extra bits through C18 block_len_exact);"
+    " contextmap_expansion_correct - the in-place expansion loop of BrotliBuildMetaBlock under disable_literal_context_modeling (descending block types) yields 64 equal entries per type for every map of >= 64*num_types entries, num_types <= 256 (kernel-checked example: ascending order is wrong);"
+    " general_reader_extends - whatever the single-type reader of the second module accepts (one meta-block, the meta-block loop, a whole stream) the general reader reads to the same result, so trivial/fast_metablock_roundtrip hold verbatim for the general reader (trivial_fast_roundtrip_general)."
+    " Lemma level (BV/Lemmas/MetaBlock{Switch,Enc,Ctx,TrivMap,FullSim,FullAsm,WmbiG,Agree}.lean): BuildAndStoreBlockSplitCode vs readCatHeader, StoreBlockSwitch vs Cat.next, build_and_store_entropy_codes vs readCodes,"
+    " Context(p1,p2,mode) = RFC 7.1 id (< 64), distance_context = RFC 7.2 id, StoreTrivialContextMap vs readContextMap (inverse MTF yields type t -> tree t), the command loop fullCmds_sim."
 )
 PROPS["C01"]["level_note"] += (
     " Third module: the model of BrotliStoreMetaBlock is tied to the code bit-exactly on ~1.7k calls per quick run with MetaBlockSplits built by the real BrotliBuildMetaBlockGreedy (+BrotliOptimizeHistograms) and generated ones"
@@ -17,12 +25,16 @@ PROPS["C01"]["level_note"] += (
     " the Lean general reader is compared with both real decoders on the real writer's streams (`readg` lines). The two context lookup tables of the reader are the harvested source constants (not an independent transcription of RFC 7932 section 7.1)."
 )
 PROPS["C01"]["rule"] += (
-    " | stage metablock, round 2: every second valid stream is additionally written by the real BrotliStoreMetaBlock (one MetaBlockSplit per meta-block: real greedy builder or generated), oracle: both decoders decode to the input;"
+    " | stage metablock, round 2: every second valid stream is additionally written by the real BrotliStoreMetaBlock (one MetaBlockSplit per meta-block: real greedy builder 1/3, real quality-10 builder BrotliBuildMetaBlock with and without disable_literal_context_modeling 1/6, generated 1/2;"
+    " plus 3 (thorough 24) insert-only inputs of 2.4-7 KB with halves of different statistics through BrotliBuildMetaBlock with disable_literal_context_modeling = 1: >= 2 literal block types, i.e. the in-place context-map expansion of seed C01-q10-contextmap-expand-ascending), oracle: both decoders decode to the input;"
     " engines cmap (363 exhaustive + 124 zero-run boundary + 400/4000 random maps) and bsw (37 exhaustive + 400/4000 random type/length sequences): real bits == model bits and the Lean reader reads the map / the (type,length) sequence back."
 )
 PROPS["C01"]["assumptions"] = PROPS["C01"]["assumptions"] + [
-    "third module: the MetaBlockSplit handed to BrotliStoreMetaBlock is well formed (first block type 0, types < num_types <= 256, block lengths >= 1 summing to the symbol count of the category, num_types = 1 => one block, context map entries < number of histograms <= 256, every histogram covers the symbols emitted under its cluster, histogram totals <= 2^25): produced by the clustering code, which is not modelled; exercised with the real greedy builder on every run",
-    "third module: depth/bits tables of BlockEncoder are zero-initialised (StandardAlloc); distance alphabet size <= 544 (BROTLI_NUM_HISTOGRAM_DISTANCE_SYMBOLS)",
+    "third module (hypotheses of full_metablock_roundtrip): the MetaBlockSplit handed to BrotliStoreMetaBlock is well formed (MBOK: per category first block type 0, types < num_types <= 256, block lengths 1..2^24, num_types = 1 => one block; context map absent => one histogram per block type, else 64*types / 4*types entries < number of histograms <= 256; histogram totals <= 2^25, distance histograms empty above the alphabet) and covers the emitted symbols (Covers: block lengths sum to at least the symbol count of the category and the histogram selected for (block type, context) counts the symbol): produced by the clustering code, which is not modelled; exercised with the real greedy builder on every run",
+    "third module: `faithful` - after every command the RFC decoder's output is history ++ a prefix of the meta-block (commands reproduce the input; C14/C19 territory). NECESSARY with literal context modelling: the writer takes the two context bytes from its input, the decoder from its output; not implied by lockstep",
+    "third module: every copying command has copy_len() >= 2 (the writer reads ring[pos-2] behind a copy; true for every match the hashers produce); prev_byte/prev_byte2 are the last two bytes of the history (0 when missing); history and input are bytes (< 256)",
+    "third module: depth/bits tables of BlockEncoder are zero-initialised (StandardAlloc); distance alphabet size <= 544 (BROTLI_NUM_HISTOGRAM_DISTANCE_SYMBOLS; C17's theorem needs alphabet <= histogram length): all standard-window parameter sets, large-window up to NPOSTFIX 2",
+    "third module, spec: MSB6 context id is written `p1 / 4 % 64` (equal to RFC `p1 >> 2` on bytes; total on the model's unbounded naturals so that general_reader_extends needs no byte-range side condition)",
 ]
 PROPS["C01"]["trusted_base"] = PROPS["C01"]["trusted_base"] + [
     "model: BV/Model/MetaBlockFull.lean mirrors NextBlockTypeCode, StoreBlockSwitch, BuildAndStoreBlockSplitCode, StoreVarLenUint8, StoreTrivialContextMap, IndexOf, MoveToFront, MoveToFrontTransform, RunLengthCodeZeros, EncodeContextMap, BlockEncoder::{new, build_and_store_entropy_codes, store_symbol, store_symbol_with_context}, Context, store_meta_block (brotli_bit_stream.rs), Command::distance_context (command.rs)",
